@@ -327,6 +327,16 @@ def _shapes(world, r):
                 if mm is not None:
                     d2.update({"mapmode": "type", "map_type": mm})
                 yield ("%s%s" % (slabel, dlabel), b, d2)
+        # data given to an event class that carries none: the default
+        # _set_event_data ignores it, so the frame (and what it decodes to)
+        # is that of the class; a constructor that writes the data over the
+        # event information bits sends another event's frame
+        sd = c.lookup("_set_event_data")
+        if sd is not None and getattr(sd[0], "name", None) == "_Event" \
+                and r.name not in ("LightEvent", "OccupancyEvent"):
+            yield ("device+ignored-data", lambda I, st: construct(
+                I, st, c, [], {"short_address": IvInt("sa"),
+                               "data": IvInt("data")}), dec)
         # DeviceShort object instead of an int
         def bo(I, st):
             out = []
